@@ -767,11 +767,7 @@ class LiteralEvaluator:
             if r and r[0] == "var" and r[1] in self.p.modules:
                 return LiteralEvaluator(self.p, self.p.modules[r[1]]).name(r[2])
             raise NotLiteral(src(n))
-        if isinstance(n, ast.BinOp) and isinstance(n.op, ast.BitOr) and (isinstance(n.left, (ast.Dict, ast.DictComp)) or isinstance(n.right, (ast.Dict, ast.DictComp))):
-            a, b = self.eval(n.left), self.eval(n.right)
-            if isinstance(a, dict) and isinstance(b, dict):
-                return {**a, **b}
-            raise NotLiteral(src(n))
+
         if isinstance(n, ast.BinOp) and isinstance(n.op, ast.Add):
             a, b = self.eval(n.left), self.eval(n.right)
             if isinstance(a, list) and isinstance(b, list):
@@ -787,6 +783,8 @@ class LiteralEvaluator:
             a, b = self.eval(n.left), self.eval(n.right)
             if isinstance(a, frozenset) and isinstance(b, frozenset):
                 return a | b
+            if isinstance(a, dict) and isinstance(b, dict):
+                return {**a, **b}
             raise NotLiteral(src(n))
         if isinstance(n, ast.Call):
             fn = n.func
